@@ -14,7 +14,7 @@ FOCUS = {
     'default': {},
     'reads': {'r_attr': 6, 'r_pk': 3, 'r_get': 4, 'r_exists': 2, 'r_select': 4, 'r_count': 3, 'r_aggr': 2, 'r_coll': 6,
               'r_todict': 2, 'flush': 1, 'r_getrel': 4, 'fail_probe': 3},
-    'delete': {'del': 8, 'new': 8, 'rel': 5, 'add': 4, 'create_in': 4, 'bulk_del': 2, 'fail_probe': 9},
+    'delete': {'del': 8, 'new': 8, 'rel': 5, 'add': 4, 'create_in': 4, 'bulk_del': 2, 'fail_probe': 9, 'del_ref': 3},
     'keys': {'new': 9, 'set': 8, 'setmany': 4, 'del': 3, 'setpk': 2, 'r_proxy': 4, 'r_pk': 3, 'proxy_reuse': 2},
     'fail': {'fail_probe': 8, 'new': 8, 'set': 6, 'setmany': 5, 'setmix': 6, 'rel': 6, 'del': 6, 'set_none': 2, 'setpk': 2, 'assign': 3, 'remove': 4},
     'rels': {'fail_probe': 3, 'setmix': 4, 'seq_probe': 6, 'rel': 8, 'add': 6, 'remove': 5, 'assign': 4, 'clear': 2, 'create_in': 4, 'r_attr': 4, 'r_coll': 4,
@@ -50,7 +50,7 @@ def gen_case(seed, i, tier, focus='default', loading=False, tag='seq'):
         ops = []
         n = r.randint(3, 14)
         builders = None
-        if focus == 'partial' and s == 0:
+        if focus in ('partial', 'load') and s == 0:
             # the first session only builds: many rows, many links, all stored when the later sessions start
             n = r.randint(12, 20)
             builders = [('new', 5), ('add', 5), ('rel', 2), ('create_in', 2)]
@@ -65,6 +65,13 @@ def gen_case(seed, i, tier, focus='default', loading=False, tag='seq'):
         if s >= 1 and r.chance(0.9 if focus == 'partial' else 0.35):
             # a later session starts with a partly loaded collection and a pending change (see op_partial)
             ops.insert(0, ['partial', r.below(1000), r.below(1000), r.below(1000)])
+        if focus == 'load' and s >= 1 and r.chance(0.5):
+            # the session starts with a select (with prefetch under the loading knobs) and walks the collections
+            ops[0:0] = [['r_select', r.below(1000), r.below(1000), r.below(1000)]] + \
+                       [['r_coll', r.below(1000), r.below(1000), r.below(1000)] for _ in range(r.randint(2, 4))]
+        if focus == 'delete' and s >= 1 and r.chance(0.3):
+            # the session starts by deleting an object it knows only as a reference (nothing is loaded yet)
+            ops.insert(0, ['del_ref', r.below(1000), r.below(1000), r.below(1000)])
         if focus == 'keys' and s >= 1 and r.chance(0.3):
             # the session's first write is obj.flush() of a new object (outside SessionCache.flush), more keys follow
             ops[0:0] = [['new', r.below(1000), r.below(1000), r.below(1000)],
